@@ -234,7 +234,7 @@ static const char **alphabet(const char *kind, size_t *n)
 {
     /* non-ASCII characters whose code point has a structural low byte (U+012E '.', U+0122 '"', U+015C '\\', U+0100 NUL, U+0140 '@'),
        a 3- and a 4-byte character, an overlong form, a surrogate, a stray continuation byte */
-    static const char *loc[] = { "a", ".", "\"", "\\", " ", "\r\n ", "\t", "@", "(", "\x7f", "\x01", "\xc3\xa9", "\xc4\xae", "\xc4\xa2", "\xc5\x9c", "\xc4\x80",
+    static const char *loc[] = { "a", ".", "\"", "\\", " ", "\r\n ", "\r", "\n", "\t", "@", "(", "\x7f", "\x01", "\xc3\xa9", "\xc4\xae", "\xc4\xa2", "\xc5\x9c", "\xc4\x80",
                                  "\xe2\x82\xac", "\xf0\x9f\x98\x80", "\xc0\xaf", "\xed\xa0\x80", "\x80", "\xc3" };
     static const char *host[] = { "a", "1", "-", ".", "_", "A", "abcdefghijklmnopqrstuvwxyz0123456789abcdefghijklmnopqrstuvwxyz0123456789ab-xyzabcdefg", "$" };
     static const char *v4[] = { "0", "1", "25", "255", "256", ".", ":", "9", "a" };
